@@ -153,6 +153,103 @@ def select_consts(ast, crate, mods=None):
     return out
 
 
+def set_like_consts(items):
+    """names of array constants that the crate only ever uses as a set: every use is NAME.contains(..) or NAME.iter().any(..) / .all(..),
+    directly or through a reference passed to a local helper whose parameter is used that way.  Their element order is irrelevant."""
+    uses = {}
+
+    def scan(node, parent_chain):
+        if isinstance(node, dict):
+            k = node.get("k")
+            if k == "Path" and "::" not in node.get("path", "") and node["path"].isupper() or (k == "Path" and node.get("path", "").replace("_", "").isupper() and node.get("path", "").upper() == node.get("path", "")):
+                name = node["path"].split("::")[-1]
+                ok = False
+                p1 = parent_chain[-1] if parent_chain else None
+                p2 = parent_chain[-2] if len(parent_chain) > 1 else None
+                if p1 is not None and p1.get("k") == "MethodCall" and p1.get("recv") is node:
+                    if p1.get("m") == "contains":
+                        ok = True
+                    elif p1.get("m") == "iter" and p2 is not None and p2.get("k") == "MethodCall" and p2.get("recv") is p1 and p2.get("m") in ("any", "all"):
+                        ok = True
+                elif p1 is not None and p1.get("k") == "Call" and node in p1.get("args", []):
+                    ok = "arg:" + str(p1.get("f", {}).get("path", "")).split("::")[-1] + ":" + str(p1["args"].index(node))
+                uses.setdefault(name, []).append(ok)
+            for v in node.values():
+                if isinstance(v, (dict, list)):
+                    scan(v, parent_chain + [node] if "k" in node else parent_chain)
+        elif isinstance(node, list):
+            for v in node:
+                scan(v, parent_chain)
+
+    fns = {}
+    for it in items:
+        if it.get("k") == "Fn" and it.get("body") is not None:
+            scan(it["body"], [])
+            fns.setdefault(it["name"], it)
+
+    def collect_local_fns(node):
+        if isinstance(node, dict):
+            if node.get("k") == "ItemStmt" and node.get("item", {}).get("k") == "Fn":
+                fns.setdefault(node["item"]["name"], node["item"])
+            for v in node.values():
+                if isinstance(v, (dict, list)):
+                    collect_local_fns(v)
+        elif isinstance(node, list):
+            for v in node:
+                collect_local_fns(v)
+    for it in items:
+        if it.get("k") == "Fn" and it.get("body") is not None:
+            collect_local_fns(it["body"])
+
+    def param_is_set_like(fname, idx):
+        it = fns.get(fname)
+        if it is None:
+            return False
+        ps = [p for p in it.get("sig", {}).get("params", []) if p.get("name") != "self"]
+        if idx >= len(ps) or ps[idx]["pat"].get("k") != "PIdent":
+            return False
+        pname = ps[idx]["pat"]["name"]
+        local = {}
+
+        def scan2(node, chain):
+            if isinstance(node, dict):
+                if node.get("k") == "Path" and node.get("path") == pname:
+                    p1 = chain[-1] if chain else None
+                    p2 = chain[-2] if len(chain) > 1 else None
+                    ok = p1 is not None and p1.get("k") == "MethodCall" and p1.get("recv") is node and (
+                        p1.get("m") == "contains" or (p1.get("m") == "iter" and p2 is not None and p2.get("k") == "MethodCall" and p2.get("recv") is p1 and p2.get("m") in ("any", "all")))
+                    local.setdefault("u", []).append(ok)
+                for v in node.values():
+                    if isinstance(v, (dict, list)):
+                        scan2(v, chain + [node] if "k" in node else chain)
+            elif isinstance(node, list):
+                for v in node:
+                    scan2(v, chain)
+        scan2(it["body"], [])
+        return bool(local.get("u")) and all(local["u"])
+
+    out = set()
+    for name, us in uses.items():
+        if us and all((u is True) or (isinstance(u, str) and param_is_set_like(u.split(":")[1], int(u.split(":")[2]))) for u in us):
+            out.add(name)
+    return out
+
+
+def _sorted_array(init):
+    """the array literal with its (literal) elements sorted, or None when it is not an array of literals"""
+    e = init
+    wrap = []
+    while e.get("k") in ("Ref", "Paren"):
+        wrap.append(e)
+        e = e["e"]
+    if e.get("k") != "Array" or not all(x.get("k") == "Lit" for x in e["elems"]):
+        return None
+    new = dict(e, elems=sorted(e["elems"], key=lambda x: (str(type(x.get("v"))), str(x.get("v")))))
+    for w in reversed(wrap):
+        new = dict(w, e=new)
+    return new
+
+
 def area_nf(ast, crate, mods, exclude_names=(), skip_types=(), known_keys=None, only_names=()):
     """-> {key: {'kind': 'paths'|'tree', ...}} JSON-able.
     known_keys: function keys of the reviewed reference.  A private, non-trait function of the area that is not among
@@ -162,6 +259,7 @@ def area_nf(ast, crate, mods, exclude_names=(), skip_types=(), known_keys=None, 
     from .render import render
     from .flat import scalar_consts, is_scalar_const
     consts = scalar_consts(ast.crates[crate])
+    setlike = set_like_consts(ast.crates[crate])
     from . import render as _render
     _render.CONSTS = consts
     res = {}
@@ -179,7 +277,13 @@ def area_nf(ast, crate, mods, exclude_names=(), skip_types=(), known_keys=None, 
         if key in res or it["name"] in consts:
             continue  # scalar constants are substituted at their uses instead
         try:
-            res[key] = {"kind": "tree", "text": "%s = %s" % ((it.get("ty") or "").replace(" ", ""), render(it["init"])), "why": "constant"}
+            init = it["init"]
+            why = "constant"
+            if it["name"] in setlike:
+                srt = _sorted_array(init)
+                if srt is not None:
+                    init, why = srt, "constant used only as a set (elements sorted)"
+            res[key] = {"kind": "tree", "text": "%s = %s" % ((it.get("ty") or "").replace(" ", ""), render(init)), "why": why}
         except Exception as e:  # noqa
             res[key] = {"kind": "tree", "text": "unrenderable: %s" % e, "why": "constant"}
     for it in select(ast, crate, mods, exclude_names):
